@@ -149,7 +149,15 @@ func runCodTab(c *core.Ctx) {
 				if s, ok := an.ConstStr(b.Y); ok && strings.HasPrefix(an.PathOf(b.X), "rangekey(") {
 					accepted[s] = true
 				}
-				if k, ok := an.ConstInt(b.Y); ok && k == '#' {
+			}
+			// '#'+letter members: the clause that stores into .Tags is reached iff the
+			// member name starts with '#' (the test may sit in a predicate helper)
+			if mu, ok := in.(*ssa.MapUpdate); ok && strings.HasSuffix(an.PathOf(mu.Map), ".Tags") {
+				kp := an.PathOf(mu.Key)
+				if i := strings.LastIndex(kp, "["); i > 0 && strings.Contains(kp[i:], ":") {
+					kp = kp[:i]
+				}
+				if set, _, ok := an.ConstFrame(kp+"[0]").ReachSet(fdec, mu.Block(), nil, nil); ok && set.Equal(an.Range('#', '#')) {
 					hashR = true
 				}
 			}
@@ -190,16 +198,10 @@ func runCodTab(c *core.Ctx) {
 		tags[strings.Split(t, ",")[0]] = true
 	}
 	looked := map[string]bool{}
-	countTest := int64(-1)
 	an.Instrs(edec, func(in ssa.Instruction) {
 		if lk, ok := in.(*ssa.Lookup); ok {
 			if s, ok := an.ConstStr(lk.Index); ok {
 				looked[s] = true
-			}
-		}
-		if b, ok := in.(*ssa.BinOp); ok && b.Op == token.NEQ && strings.HasPrefix(an.PathOf(b.X), "len(") {
-			if k, ok := an.ConstInt(b.Y); ok {
-				countTest = k
 			}
 		}
 	})
@@ -219,7 +221,7 @@ func runCodTab(c *core.Ctx) {
 		proceed, _, _ = fr.ReachSet(edec, firstLookup.Block(), nil, nil)
 	}
 	nf := int64(st.NumFields())
-	c.Check(setList(tags) == setList(looked) && len(tags) == st.NumFields() && countTest == nf && proceed.Equal(an.Range(nf, nf)), nil, "Event", "keys", P.Pos(edec.Pos()), fmt.Sprintf("%d struct tags = %d keys looked up; decoding proceeds iff the object has %s members", len(tags), len(looked), proceed),
+	c.Check(setList(tags) == setList(looked) && len(tags) == st.NumFields() && proceed.Equal(an.Range(nf, nf)), nil, "Event", "keys", P.Pos(edec.Pos()), fmt.Sprintf("%d struct tags = %d keys looked up; decoding proceeds iff the object has %s members", len(tags), len(looked), proceed),
 		fmt.Sprintf("Event codec disagreement: struct tags {%s}, keys looked up {%s}, decoding proceeds with %s members (want exactly %d): missing or extra members are not refused", setList(tags), setList(looked), proceed, nf))
 }
 
